@@ -41,6 +41,7 @@ def check_C01(tier, seed):
         ops = [e for e in c['events'] if e['e'] == 'end'][0]['ops']
         sweep += families.boundary_budgets(s, ops)
     sweep += families.closure_sessions(seed, 150 if quick else 1500)
+    sweep += families.cached_repeat_sessions(seed + 3, 150 if quick else 1500)
     cases = [c for c in vmrun.run_scenarios(sweep) if 'harness_error' not in c]
     engine.judge_cases(rep, cases, devs, what='recorded run')
     rep.assumptions += ['host functions are the probes/callbacks of harness/vmrun.py (a Python host that catches the limit error is '
@@ -588,6 +589,9 @@ def check_C04(tier, seed):
     scns = families.numeric_programs(seed + 7, 1200 if quick else 20000, host_types=True)
     cases = [c for c in vmrun.run_scenarios(scns) if 'harness_error' not in c]
     engine.judge_cases(rep, cases, devs, what='numeric chain')
+    scns = families.shadowed_cast_programs(seed + 9, 500 if quick else 6000)
+    cases = [c for c in vmrun.run_scenarios(scns) if 'harness_error' not in c]
+    engine.judge_cases(rep, cases, devs, what='program with shadowed numeric casts')
     return rep.finish()
 
 
